@@ -50,6 +50,36 @@ pub fn check(tier: Tier) -> Check {
     }
 }
 
+/// every property a CONNACK may carry, in one of three orders (as listed / reversed / rotated)
+fn full_connack_props(order: usize) -> Vec<Prop> {
+    let mut v = vec![
+        Prop::u32(P_SESSION_EXPIRY, 77),
+        Prop::u16(P_RECEIVE_MAXIMUM, 9),
+        Prop::byte(P_MAXIMUM_QOS, 1),
+        Prop::byte(P_RETAIN_AVAILABLE, 0),
+        Prop::u32(P_MAXIMUM_PACKET_SIZE, 4096),
+        Prop::str(P_ASSIGNED_CLIENT_ID, "assigned"),
+        Prop::u16(P_TOPIC_ALIAS_MAXIMUM, 3),
+        Prop::str(P_REASON_STRING, "ok"),
+        Prop::user("z", "1"),
+        Prop::user("a", "2"),
+        Prop::byte(P_WILDCARD_SUB_AVAILABLE, 0),
+        Prop::byte(P_SUB_ID_AVAILABLE, 1),
+        Prop::byte(P_SHARED_SUB_AVAILABLE, 0),
+        Prop::u16(P_SERVER_KEEP_ALIVE, 0),
+        Prop::str(P_RESPONSE_INFO, "resp"),
+        Prop::str(P_SERVER_REFERENCE, "ref"),
+        Prop::str(P_AUTH_METHOD, "m"),
+        Prop::bin(P_AUTH_DATA, &[9, 8]),
+    ];
+    match order {
+        0 => {}
+        1 => v.reverse(),
+        _ => v.rotate_left(7),
+    }
+    v
+}
+
 fn connect_scenario(name: String, params: Value) -> Scenario {
     Box::new(move |chz, ex| {
         let mut sys = Sys::new("C13", &name, chz);
@@ -65,9 +95,12 @@ fn connect_scenario(name: String, params: Value) -> Scenario {
             0 => {
                 // CONNACK with every reason x property set x session present
                 let reason = CONNECT_REASONS[chz.choose(CONNECT_REASONS.len())];
-                let props = match chz.choose(3) {
+                let props = match chz.choose(6) {
                     0 => vec![],
                     1 => rich.clone(),
+                    3 => full_connack_props(0),
+                    4 => full_connack_props(1),
+                    5 => full_connack_props(2),
                     _ => {
                         let mut p = rich.clone();
                         p.push(Prop::u16(P_RECEIVE_MAXIMUM, 7));
@@ -114,11 +147,18 @@ fn connect_scenario(name: String, params: Value) -> Scenario {
                     sys.m.authorize(&a);
                     sys.w.cmd(CtxCmd::Authorize(a));
                     sys.sync();
-                    let answer = match chz.choose(4) {
+                    let answer = match chz.choose(7) {
                         0 => SPacket::Auth {
                             reason: 0x18,
                             props: ch,
                             form: 2,
+                        },
+                        // the CONNACK that closes the exchange, with every property in three orders
+                        // (Authentication Data ahead of the Authentication Method among them)
+                        k @ 4..=6 => SPacket::Connack {
+                            session_present: k == 5,
+                            reason: 0,
+                            props: full_connack_props(k - 4),
                         },
                         1 => SPacket::Connack {
                             session_present: false,
